@@ -321,7 +321,58 @@ theorem resume_after_deadline_is_wrong :
     (cutSegs.map List.flatten).flatten = enc [outer28] ∧
     serve true 3 cutSegs = [msg13] ∧ msg13 ∉ [outer28] ∧ serve false 3 cutSegs = [] := by decide
 
-/-! ### Guard over the regenerated fact -/
-theorem facts_guard : Gen.Facts.c16ReadErrEndsConn = some true := by decide
+/-! ### DoQ: the reply of a slow handler / to a slowly draining client -/
+
+theorem credit_none (t0 : Nat) (gs : Grants) : credit none t0 gs = (gs.map (·.2)).sum := by
+  have h : gs.filter (usable none t0) = gs := List.filter_eq_self.mpr (fun _ _ => rfl)
+  simp [credit, h]
+
+/-- **C16 on a DoQ stream, write direction.** If the deadline of the stream bounds reads only, the client finds
+exactly the frame of the reply on the stream: whatever the limit is, however long the handler took and in whatever
+portions (and however late) the client's flow control lets the bytes through, provided it lets them through at all. -/
+theorem doq_reply_intact (limit tHandler : Nat) (gs : Grants) (reply : Bytes) (hmax : reply.length ≤ 65535)
+    (hc : reply.length + 2 ≤ (gs.map (·.2)).sum) :
+    doqStream false limit tHandler gs reply = hdr reply.length ++ reply := by
+  have hlen : ¬ reply.length > 65535 := by omega
+  simp only [doqStream, frame, hlen, if_false, doqWrite, credit_none, Bool.false_eq_true]
+  apply List.take_of_length_le
+  simp [hdr]
+  omega
+
+/-- ... and any chunking of what is on the stream reads back as that one reply with nothing left over. -/
+theorem doq_reply_reads_back (limit tHandler : Nat) (gs : Grants) (reply : Bytes) (h13 : 13 ≤ reply.length)
+    (hmax : reply.length ≤ 65535) (hc : reply.length + 2 ≤ (gs.map (·.2)).sum) (cs : Stream)
+    (hcs : cs.flatten = doqStream false limit tHandler gs reply) :
+    ∃ cs', readRaw cs = .ok (reply, cs') ∧ cs'.flatten = [] := by
+  rw [doq_reply_intact limit tHandler gs reply hmax hc] at hcs
+  exact readRaw_frame reply [] cs h13 hmax (by simpa using hcs)
+
+/-- Does the stream deadline of the source bound writes, as regenerated (T2)? -/
+def srcDoqWriteBounded : Bool := Gen.Facts.c16DoqStreamDeadlineReadOnly != some true
+
+/-- `doq_reply_reads_back` for `ServeDoQ` as it is in the source now. -/
+theorem doq_reply_reads_back_src (limit tHandler : Nat) (gs : Grants) (reply : Bytes) (h13 : 13 ≤ reply.length)
+    (hmax : reply.length ≤ 65535) (hc : reply.length + 2 ≤ (gs.map (·.2)).sum) (cs : Stream)
+    (hcs : cs.flatten = doqStream srcDoqWriteBounded limit tHandler gs reply) :
+    ∃ cs', readRaw cs = .ok (reply, cs') ∧ cs'.flatten = [] := by
+  have hs : srcDoqWriteBounded = false := by decide
+  rw [hs] at hcs
+  exact doq_reply_reads_back limit tHandler gs reply h13 hmax hc cs hcs
+
+/-- **Witness: a stream deadline that also bounds the write is wrong.** Limit 2000 ms. (1) The handler returns after
+2300 ms: nothing but FIN is on the stream. (2) The handler is quick, the client lets 4 bytes through and the rest
+from 2500 ms on: the stream holds a header announcing 13 bytes and 2 of them. Neither reads back as a message; with
+a read-only deadline both streams hold the whole frame. -/
+theorem write_deadline_cuts_reply :
+    doqStream true 2000 2300 [(0, 4096)] msg13 = [] ∧
+    doqStream true 2000 0 [(0, 4), (2500, 4096)] msg13 = [0, 13, 1, 2] ∧
+    (readRaw [doqStream true 2000 2300 [(0, 4096)] msg13]).toBool = false ∧
+    (readRaw [doqStream true 2000 0 [(0, 4), (2500, 4096)] msg13]).toBool = false ∧
+    doqStream false 2000 2300 [(0, 4096)] msg13 = 0 :: 13 :: msg13 ∧
+    doqStream false 2000 0 [(0, 4), (2500, 4096)] msg13 = 0 :: 13 :: msg13 := by decide
+
+/-! ### Guard over the regenerated facts -/
+theorem facts_guard :
+    Gen.Facts.c16ReadErrEndsConn = some true ∧ Gen.Facts.c16DoqStreamDeadlineReadOnly = some true := by decide
 
 end Props.C16
